@@ -43,12 +43,45 @@ Definition model (k:tcase) : tape :=
                    then [match tunnel_tls pl with Some n => [116;108;115;58] ++ n | None => [45] end] else [])
   ++ eBool ok.
 
+(* the observation, decoded *)
+Record tobs := { o_fn : N; o_addr : bytes; o_first_tls : option bytes; o_connects : list bytes;
+                 o_auths : list bytes; o_socks : list bytes; o_btls : list bytes; o_ok : bool }.
+Definition p_tobs : P tobs :=
+  f <- pN ;; a <- pBytes ;; ft <- pOpt pBytes ;; cs <- pList pBytes ;; au <- pList pBytes ;;
+  so <- pList pBytes ;; bt <- pList pBytes ;; ok <- pBool ;;
+  ret {| o_fn := f; o_addr := a; o_first_tls := ft; o_connects := cs; o_auths := au; o_socks := so; o_btls := bt; o_ok := ok |}.
+
+(* what the property says about credentials and names, stated directly *)
+Definition want_auth (k:tcase) : option bytes :=
+  match t_proxy k with
+  | Some p => match px_scheme p, px_user p, px_pass p with
+              | (PHttp | PHttps), Some u, Some pw => Some (basic_auth u pw)
+              | _, _, _ => None
+              end
+  | None => None
+  end.
+Definition tls_name (k:tcase) : bytes :=
+  match server_name (t_cfg k) with [] => snd (host_port_no_port (t_host k) (t_wss k)) | n => n end.
+Definition tls_tag : bytes := [116;108;115;58].
+
 Definition spec (k:tcase) (obs:tape) : option (N * tape) :=
   (* the last number of the observation is Dial's success flag *)
   let ok := match rev' obs with x :: _ => negb (x =? 0) | [] => false end in
   let pl := dial_plan (t_cfg k) (t_wss k) (t_host k) (t_proxy k) in
   if ok && backend_verified k pl && negb (t_cert k =? 0) then Some (160, [])       (* connected over TLS to a backend whose certificate is not valid for the host *)
   else if ok && match t_proxy k with Some _ => negb (t_reply_ok k) | None => false end then Some (161, [])  (* connected although the proxy refused *)
-  else None.
+  else match p_tobs obs with
+  | None => Some (199, [])
+  | Some (o, _) =>
+      (* every CONNECT carried exactly the configured credentials (or none) *)
+      if negb (forallb (fun a => match want_auth k with Some w => beq a w | None => beq a [] end) (o_auths o)) then Some (162, [])
+      (* whatever TLS session reached the backend through a proxy was opened for the URL's host (or the configured ServerName) *)
+      else if match t_proxy k with Some _ => true | None => false end && t_wss k
+              && negb (forallb (fun x => beq x (tls_tag ++ tls_name k)) (o_btls o)) then Some (163, [])
+      (* ws:// through a proxy is never wrapped in TLS towards the backend; wss:// always is *)
+      else if match t_proxy k with Some _ => true | None => false end && negb (t_wss k)
+              && negb (forallb (fun x => beq x [45]) (o_btls o)) then Some (164, [])
+      else None
+  end.
 
 Definition judge : tape -> tape := judge_with p_tcase spec model.
